@@ -2,7 +2,8 @@
    the Go harness ran through the real handleConn (ACL, cache configuration, the
    query messages in order) with, per message, what the fake upstream saw
    (forwarded or not) and what the real sql.Parse + queryTopics say about the
-   full text; and the answers of the real matchPatterns for every topic involved.
+   full text; the answers of a reference glob matcher (path.Match called by the
+   harness) for every topic involved, and the proxy's own ACL.Allows verdicts.
    [check_case] replays the connection on the model and compares the forwarding
    decisions, compares the real cacheKey of every text with the model's cache_key
    (so any change of the key function is a mismatch at once), compares the token-level topic extraction with the real parser on
@@ -24,7 +25,9 @@ Record case := mkCase {
   k_deny : list bytes;
   k_ttl : Z;
   k_max : Z;
-  k_match : list (bytes * (bool * bool));   (* topic -> (matchPatterns(Deny,t), matchPatterns(Allow,t)) *)
+  k_match : list (bytes * (bool * bool));   (* topic -> reference glob match against (Deny, Allow): path.Match in the harness *)
+  k_real : list (bytes * bool);             (* topic -> the proxy's own ACL.Allows(topic) *)
+  k_real_show : bool;                       (* the proxy's own ACL.AllowShowTopics() *)
   k_msgs : list msg
 }.
 
@@ -36,7 +39,7 @@ Fixpoint lookup {A} (k : bytes) (l : list (bytes * A)) : option A :=
 
 Definition lb_eqb := list_eqb bytes_eqb.
 
-(* matchPatterns as observed; an unknown topic is flagged by [known] below *)
+(* matchPatterns per the reference semantics; an unknown topic is flagged by [known] below *)
 Definition mp_of (k : case) (pats : list bytes) (t : bytes) : bool :=
   if is_nil pats then false else
   match lookup t (k_match k) with
@@ -78,4 +81,7 @@ Definition check_case (k : case) : bool :=
   let outs := run (mp_of k) (parse_ok_of k) a (new_cache (k_ttl k) (k_max k))
                   (map (fun m => (m_text m, false)) (k_msgs k)) in
   list_eqb Bool.eqb (map is_forwarded outs) (map m_forwarded (k_msgs k)) &&
-  forallb (msg_ok k) (k_msgs k) && known k [42].
+  forallb (msg_ok k) (k_msgs k) && known k [42] &&
+  (* the proxy's ACL answers as the reference semantics (the tie for the premise [allows]) *)
+  forallb (fun '(t, v) => Bool.eqb (allows (mp_of k) a t) v) (k_real k) &&
+  Bool.eqb (allow_show (mp_of k) a) (k_real_show k).
